@@ -657,7 +657,7 @@ def check_trace_property(prop, tier, seed, work, replay=None, scale=1.0):
             head = ln[:cut] if cut > 0 else ln
             opm = re.match(r'\{"op":\s*"(\w+)"', head)
             if opm and opm.group(1) not in SETUP_OPS:
-                distinct_cases.add(hash(head))
+                distinct_cases.add(hash(ln))
         for rec in res["mach"]:
             machinery.append("%s line %d %s: %s %s" % (os.path.basename(res["trace"]), rec["line"], rec["op"], rec["reason"], rec["detail"]))
         for rec in res["dis"]:
@@ -744,7 +744,7 @@ def check_trace_property(prop, tier, seed, work, replay=None, scale=1.0):
         "events_validated": total_lines,
         "evaluations": total_lines,
         "distinct_nontrivial": len(distinct_cases),
-        "rule": "one case = one call of the library recorded with its inputs and validated by TLC; distinct by (action, receiver/argument ids, concrete inputs); setup and bookkeeping events (Reset, accessor writes, Adopt) are not counted",
+        "rule": "one case = one call of the library recorded with its inputs and validated by TLC; distinct by (action, receiver/argument ids, concrete inputs, observed state of the whole pool after the call, i.e. by operand VALUES and not only by variable ids); setup and bookkeeping events (Reset, accessor writes, Adopt) are not counted",
         "samples": [json.loads(json.dumps(x)[:1500] if len(json.dumps(x)) <= 1500 else json.dumps({"op": x.get("op"), "note": "large event elided"})) for x in samples] or [{"note": "no events"}],
         "toy_model_checking": [{k: r.get(k) for k in ("module", "cfg", "ok", "generated", "distinct", "wall", "lead", "programs") if k in r} for r in mc_results],
         "trace_files": len(jobs),
